@@ -37,9 +37,11 @@ LEVEL = 'exploration'
 RULE = (
     'cases = seeded sampling contexts: alternative table of 3-40 rows with arbitrary distinct ids (small / large / negative / '
     'containing 0, shuffled, int or float id column), 1-4 attributes (float or int), partition into 1-4 strata with requested '
-    'sizes 1..n (40% of the contexts sample every stratum completely), 1-60 individuals (int or float choice column, default or '
-    'arbitrary index), 0-2 combined variables and a 2-4 term utility given as ASTs, optional second partition (over all or part '
-    'of the alternatives), nested / cross-nested structures; plus 7 fixed directed contexts. Each context is merged 3 (quick) / '
+ 'sizes 1..n (40% of the contexts sample every stratum completely), 1-60 individuals (int or float choice column); both '
+    'tables carry, independently, one of the row-label styles default range / permutation of 0..N-1 / sorted by an attribute '
+    'without reset / gaps (rows of a larger table) / offset or negative / equal to the id column (named or not) / strings / '
+    'repeated labels; 0-2 combined variables and a 2-4 term utility given as ASTs, optional second partition (over all or part '
+    'of the alternatives), nested / cross-nested structures; plus 11 fixed directed contexts. Each context is merged 3 (quick) / '
     '5 (thorough) times and sampled directly 15 / 30 times with different RNG states. non-trivial = a database returned by '
     'sample_and_merge was judged row by row; distinct = hash of (specification, matrix of sampled ids)'
 )
@@ -489,6 +491,8 @@ def run_case(case):
     rec.c('contexts_ids_' + spec['id_kind'])
     if spec['index'] is not None:
         rec.c('contexts_with_arbitrary_individual_index')
+    rec.c('contexts_alternatives_index_' + (spec.get('alt_index') or {}).get('style', 'range'))
+    rec.c('contexts_individuals_index_' + ('arbitrary_integers' if spec['index'] is not None else (spec.get('ind_index') or {}).get('style', 'range')))
     if any(k == 1 for k in spec['sizes']):
         rec.c('contexts_with_a_stratum_of_requested_size_1')
     if m.mev:
@@ -588,6 +592,10 @@ def finalize(cov, tier):
             'complete_sampling_ll_compared_logit', 'complete_sampling_ll_compared_nested',
             'biogeme_init_likelihood_compared', 'contexts_where_resampling_gave_different_sets', 'recycled_databases_judged',
             'contexts_with_a_stratum_of_requested_size_1', 'contexts_with_arbitrary_individual_index']
+    from ..gen import c19_gen as g
+
+    need += ['contexts_alternatives_index_' + st for st in g.INDEX_STYLES]
+    need += ['contexts_individuals_index_' + st for st in g.INDEX_STYLES if st not in ('id', 'id_named')]
     for k in need:
         if cov.get(k, 0) == 0:
             out.append(f'monitor never evaluated: {k}')
